@@ -261,28 +261,40 @@ def miri_pass(prop, workloads, schedules, seed0, native):
     def args_of(ws, sched):
         return ["parallel", "--property", prop, "--seed", str(ws), "--warm", str(sched % 2), "--expect-ref", refs[ws]]
 
+    def rate_of(sched):
+        # swarm style: the preemption rate varies with the scheduler seed (pairs of a cold and a
+        # warm schedule share one) - rare preemption lets calls overlap in long stretches, frequent
+        # preemption lands inside windows only two instructions wide
+        return [0.05, 0.2, 0.01, 0.5][(sched // 2) % 4]
+
     def one(ws, sched):
-        env = dict(base_env, MIRIFLAGS=f"-Zmiri-seed={sched} -Zmiri-preemption-rate=0.05")
+        env = dict(base_env, MIRIFLAGS=f"-Zmiri-seed={sched} -Zmiri-preemption-rate={rate_of(sched)}")
         cmd = ["cargo", "+nightly", "miri", "run", "--offline", "--manifest-path", os.path.join(SIM, "Cargo.toml"), "--"] + args_of(ws, sched)
         r = subprocess.run(cmd, env=env, capture_output=True, text=True)
         return ws, sched, r.returncode, r.stdout + r.stderr
 
     jobs = [(ws, k) for ws in range(seed0, seed0 + workloads) for k in range(schedules)]
-    results = [one(*jobs[0])]  # the first run also builds; the others then only interpret
-    with concurrent.futures.ThreadPoolExecutor(max_workers=int(os.environ.get("MIRI_JOBS", "16"))) as ex:
-        results += list(ex.map(lambda j: one(*j), jobs[1:]))
+    first = one(*jobs[0])  # the first run also builds; the others then only interpret
     execs = 0
-    for ws, sched, rc, out in sorted(results):
-        execs += len(re.findall(r"^parallel pass", out, re.M))
-        if rc != 0:
-            if re.search(r"SCHEDULE-DEPENDENT|Undefined Behavior|Data race", out):
-                i = min(x for x in (out.find("SCHEDULE-DEPENDENT"), out.find("Undefined Behavior"), out.find("Data race")) if x >= 0)
-                args = args_of(ws, sched)
-                path = write_replay(prop, f"miri_workload{ws}_schedule{sched}", args, "full", out[i:i + 3000] + "\n",
-                                    kind=f"miri -Zmiri-seed={sched} -Zmiri-preemption-rate=0.05")
-                raise Violation(path, f"value depends on how caller threads interleave inside calls (workload seed {ws}, scheduler seed {sched})")
-            print(out[-3000:])
-            die(f"miri run failed for workload seed {ws}, scheduler seed {sched}")
+    ex = concurrent.futures.ThreadPoolExecutor(max_workers=int(os.environ.get("MIRI_JOBS", "16")))
+    futs = [ex.submit(one, *j) for j in jobs[1:]]
+    try:
+        # results are taken in job order, so what is reported does not depend on which
+        # interpreter finishes first; at the first violation the jobs not yet started are dropped
+        for idx in range(len(jobs)):
+            ws, sched, rc, out = first if idx == 0 else futs[idx - 1].result()
+            execs += len(re.findall(r"^parallel pass", out, re.M))
+            if rc != 0:
+                if re.search(r"SCHEDULE-DEPENDENT|Undefined Behavior|Data race", out):
+                    i = min(x for x in (out.find("SCHEDULE-DEPENDENT"), out.find("Undefined Behavior"), out.find("Data race")) if x >= 0)
+                    args = args_of(ws, sched)
+                    path = write_replay(prop, f"miri_workload{ws}_schedule{sched}", args, "full", out[i:i + 3000] + "\n",
+                                        kind=f"miri -Zmiri-seed={sched} -Zmiri-preemption-rate={rate_of(sched)}")
+                    raise Violation(path, f"value depends on how caller threads interleave inside calls (workload seed {ws}, scheduler seed {sched})")
+                print(out[-3000:])
+                die(f"miri run failed for workload seed {ws}, scheduler seed {sched}")
+    finally:
+        ex.shutdown(wait=True, cancel_futures=True)
     return execs
 
 
@@ -387,7 +399,8 @@ def main():
             "distinct_nontrivial": max(2, total.get("keys_in_2plus_contexts", 0)) if total else 2,
             "rule": ("cases are library calls made inside seeded caller histories (sim/src/main.rs): one PRNG stream per (seed, property) draws texts over a mixed alphabet, "
                      "the calls (half of the new ones inside this property's domain, the rest over all 15 call kinds), which of 1-4 real caller threads makes each call, "
-                     "whether its text sits in a reused buffer, a buffer shared by all threads or a fresh allocation, thread restarts, and at which invocation caller-supplied code panics. "
+                     "whether its text sits in a reused buffer, a buffer shared by all threads or a fresh allocation, thread restarts, at which invocation caller-supplied code (separator, splitter, algorithm, any of the three Fragment methods) panics, "
+                     "whether the thread retries the failed call, whether a lazy iterator the library returned is drained at once, held across another complete call, or dropped undrained, and whether caller-supplied code re-enters the library. "
                      "evaluations = executions whose result this property pins. A case is (entry point, argument values); it is non-trivial when it was executed in at least two different contexts "
                      "(run, thread, storage, before/after a caught fault on that thread) so that its value was actually compared; distinct_nontrivial counts those keys, summed over seeds and feature sets. "
                      "Every in-domain key is also re-executed by a fresh-process reference pass (one thread, fresh allocations, reverse-sorted order) and compared."),
@@ -418,7 +431,7 @@ def main():
                 "distinct_call_orders": total.get("distinct_call_orders", 0),
                 "keys_seen_on_2plus_threads": total.get("keys_on_2plus_threads", 0),
                 "library_internal_scheduling_points": 0,
-                "note": "caller threads are real and are released one call at a time by the seeded scheduler; the library contains no synchronisation, I/O or timer call, so whole calls are the only unit a scheduler can order. The thorough tier adds a Miri pass in which threads interleave inside calls.",
+                "note": "caller threads are real and are released one call at a time by the seeded scheduler; the library contains no synchronisation, I/O or timer call, so whole calls are the only unit a scheduler can order. The thorough tier adds a Miri pass in which threads interleave inside calls (16 workloads x 16 scheduler seeds, preemption rate 0.01-0.5 by seed, cold and warm starts, reference values from a native fresh process).",
                 "miri_executions": miri_execs,
             },
             "reference_pass": {"keys": total.get("reference_pass_keys", 0), "compared_with_hot_pass": total.get("keys_compared_hot_vs_reference", 0)},
